@@ -50,8 +50,8 @@ import (
 	"github.com/yandex/pandora/components/providers/grpc/grpcjson"
 	httpprov "github.com/yandex/pandora/components/providers/http"
 	httpconf "github.com/yandex/pandora/components/providers/http/config"
-	httpprovider "github.com/yandex/pandora/components/providers/http/provider"
 	"github.com/yandex/pandora/components/providers/http/decoders"
+	httpprovider "github.com/yandex/pandora/components/providers/http/provider"
 	"github.com/yandex/pandora/components/providers/scenario"
 	scngrpc "github.com/yandex/pandora/components/providers/scenario/grpc"
 	scnhttp "github.com/yandex/pandora/components/providers/scenario/http"
@@ -121,24 +121,28 @@ type Cell struct {
 	Wts  []int  // scenario kinds: the `weight` of each of the N scenarios (nil: every weight 1); a pass delivers scenario i weight_i / gcd times
 	Src  string // generic JSON provider: the data source — "" | file, inline (datasource.NewInline / `type: inline`), rs (NewReader over a
 	// ReadSeeker), rsc (NewReader over a ReadSeekCloser), rc (NewReader over a ReadCloser without Seek), pipe (NewReader over a plain io.Reader: cannot be rewound), buf (NewBuffer: cannot be rewound)
-	Cons    int
-	Cap     int    // drain: cancel at this many acquisitions (0 = never); stall: total number of Acquire calls
-	Junk    bool   // add header / blank lines that are not entries where the format allows it
-	Pad     int    // pad every entry with this many bytes (files larger than one bufio buffer)
-	Mode    string // drain | stall | ext | engine
-	At      int    // ext: cancel from inside this file operation (0 = before Run); tcan: cancel after this many microseconds
-	Jit     int    // != 0: consumers yield / sleep pseudo-randomly (seed) between their Acquire calls
-	Via     string // direct | cfg
-	Shots   int    // engine: shared once(Shots) schedule; 0 = unlimited
-	Eol     int    // shape of the line ends of the ammo file: 0 = "\n" after every line, 1 = the last line has no newline, 2 = "\r\n" where the format has lines, 3 = blank lines before the first and after the last entry
-	Idle    bool   // engine: the shared schedule has no token at all (a run that shoots nothing): instances finish at once
-	Gate    int    // != 0: the Gate-th file operation waits until the context given to Provider.Run is cancelled (at most 2 s)
+	Cons  int
+	Cap   int    // drain: cancel at this many acquisitions (0 = never); stall: total number of Acquire calls
+	Junk  bool   // add header / blank lines that are not entries where the format allows it
+	Pad   int    // pad every entry with this many bytes (files larger than one bufio buffer)
+	Mode  string // drain | stall | ext | engine
+	At    int    // ext: cancel from inside this file operation (0 = before Run); tcan: cancel after this many microseconds
+	Jit   int    // != 0: consumers yield / sleep pseudo-randomly (seed) between their Acquire calls
+	Via   string // direct | cfg
+	Shots int    // engine: shared once(Shots) schedule; 0 = unlimited
+	Eol   int    // shape of the line ends of the ammo file: 0 = "\n" after every line, 1 = the last line has no newline, 2 = "\r\n" where the format has lines, 3 = blank lines before the first and after the last entry
+	Idle  bool   // engine: the shared schedule has no token at all (a run that shoots nothing): instances finish at once
+	Gate  int    // != 0: the Gate-th file operation waits until the context given to Provider.Run is cancelled (at most 2 s)
 	// fault plan (round 3); any combination, also together with a cancel (Cap, At):
 	CFail   int  // 1: closing the ammo file fails (kind uris: the exported Provider.Close field returns an error); 2: the exported Provider.Close field is nil (http kinds built directly)
 	RFail   int  // != 0: the RFail-th operation on the ammo file (Read / Seek) fails with an I/O error
 	RSticky bool // … and so does every later one (a device that is gone); otherwise only that one (a transient error)
 	OFail   bool // opening the ammo file fails (kinds that open it in Run: grpc/json, generic JSON; the others fail in their constructor)
-	Tick    time.Duration
+	// round 6: the size of an entry and the option that bounds it
+	Big   int // entry BigAt-1 of the file is padded with this many bytes more (an ammo of 64 KiB and more: beyond bufio.MaxScanTokenSize)
+	BigAt int // 1-based index of the big entry (0: none)
+	Mas   int // the `maxammosize` option (http kinds, grpc/json); 0 = not set
+	Tick  time.Duration
 }
 
 // HasFault: the cell injects a fault.
@@ -382,9 +386,20 @@ func FileFor(c Cell) (string, string) {
 	return ext, body
 }
 
+// padOf: the padding of entry i (round 6: one entry of the file may be much larger than the others)
+func (c Cell) padOf(i int) string {
+	n := c.Pad
+	if c.BigAt != 0 && i == c.BigAt-1 {
+		n += c.Big
+	}
+	return strings.Repeat("p", n)
+}
+
+// HasSize: the cell has the size dimension of round 6
+func (c Cell) HasSize() bool { return c.BigAt != 0 || c.Mas != 0 }
+
 func fileBody(c Cell) (string, string) {
 	var b strings.Builder
-	pad := strings.Repeat("p", c.Pad)
 	nl := "\n"
 	if c.Eol == 2 {
 		nl = "\r\n"
@@ -399,7 +414,7 @@ func fileBody(c Cell) (string, string) {
 			if c.Junk && i == 0 {
 				b.WriteString("[X-Later: 1]" + nl)
 			}
-			if c.Pad > 0 {
+			if pad := c.padOf(i); pad != "" {
 				fmt.Fprintf(&b, "[X-Pad: %s]%s", pad, nl)
 			}
 		}
@@ -410,7 +425,7 @@ func fileBody(c Cell) (string, string) {
 		}
 		for i := 0; i < c.N; i++ {
 			body := ""
-			if i%2 == 0 || c.Pad > 0 {
+			if pad := c.padOf(i); i%2 == 0 || pad != "" {
 				body = fmt.Sprintf("body-%d%s", i, pad)
 			}
 			fmt.Fprintf(&b, "%d %s %s%s%s", len(body), entryPath(i), tagOf(i), nl, body)
@@ -422,7 +437,7 @@ func fileBody(c Cell) (string, string) {
 	case KRaw:
 		for i := 0; i < c.N; i++ {
 			req := fmt.Sprintf("GET %s HTTP/1.1\r\nHost: h.example\r\nX-I: %d\r\n", entryPath(i), i)
-			if c.Pad > 0 {
+			if pad := c.padOf(i); pad != "" {
 				req += "X-Pad: " + pad + "\r\n"
 			}
 			req += "\r\n"
@@ -434,7 +449,7 @@ func fileBody(c Cell) (string, string) {
 		return ".raw", b.String()
 	case KJSONLine:
 		for i := 0; i < c.N; i++ {
-			fmt.Fprintf(&b, `{"host":"h.example","method":"GET","uri":"%s","tag":"%s","headers":{"X-I":"%d","X-Pad":"%s"}}`+nl, entryPath(i), tagOf(i), i, pad)
+			fmt.Fprintf(&b, `{"host":"h.example","method":"GET","uri":"%s","tag":"%s","headers":{"X-I":"%d","X-Pad":"%s"}}`+nl, entryPath(i), tagOf(i), i, c.padOf(i))
 			if c.Junk && i == 0 {
 				b.WriteString(nl)
 			}
@@ -449,7 +464,7 @@ func fileBody(c Cell) (string, string) {
 			if c.Junk {
 				b.WriteString(nl + "  ")
 			}
-			fmt.Fprintf(&b, `{"host":"h.example","method":"GET","uri":"%s","tag":"%s","headers":{"X-Pad":"%s"}}`, entryPath(i), tagOf(i), pad)
+			fmt.Fprintf(&b, `{"host":"h.example","method":"GET","uri":"%s","tag":"%s","headers":{"X-Pad":"%s"}}`, entryPath(i), tagOf(i), c.padOf(i))
 		}
 		b.WriteString("]")
 		if c.Junk {
@@ -458,12 +473,12 @@ func fileBody(c Cell) (string, string) {
 		return ".json", b.String()
 	case KGRPCJSON:
 		for i := 0; i < c.N; i++ {
-			fmt.Fprintf(&b, `{"tag":"%s","call":"pkg.Svc.M%d","payload":{"i":%d,"pad":"%s"}}`+nl, tagOf(i), i, i, pad)
+			fmt.Fprintf(&b, `{"tag":"%s","call":"pkg.Svc.M%d","payload":{"i":%d,"pad":"%s"}}`+nl, tagOf(i), i, i, c.padOf(i))
 		}
 		return ".grpc.json", b.String()
 	case KGenJSON:
 		for i := 0; i < c.N; i++ {
-			fmt.Fprintf(&b, `{"I":%d,"Tag":"%s","Pad":"%s"}`, i, tagOf(i), pad)
+			fmt.Fprintf(&b, `{"I":%d,"Tag":"%s","Pad":"%s"}`, i, tagOf(i), c.padOf(i))
 			if c.Junk {
 				b.WriteString(" ")
 			} else {
@@ -545,6 +560,9 @@ func constructCfg(c Cell, path string) (core.Provider, error) {
 	if c.Preload {
 		m["preload"] = true
 	}
+	if c.Mas != 0 {
+		m["maxammosize"] = c.Mas
+	}
 	if c.Pick != nil {
 		l := []any{}
 		for _, t := range c.chosenTags() {
@@ -584,6 +602,15 @@ func construct(c Cell, path string, cio *cellIO) (core.Provider, error) {
 	if c.Pick != nil && !(IsHTTP(c.Kind) || c.Kind == KGRPCJSON) {
 		return nil, fmt.Errorf("harness: kind %s has no chosencases option", c.Kind)
 	}
+	if c.HasSize() && !(IsHTTP(c.Kind) && c.Kind != KURIs || c.Kind == KGRPCJSON || c.Kind == KGenJSON) {
+		return nil, fmt.Errorf("harness: kind %s has no sized entries", c.Kind)
+	}
+	if c.Mas != 0 && c.Kind == KGenJSON {
+		return nil, fmt.Errorf("harness: the generic JSON provider has no maxammosize option")
+	}
+	if c.BigAt > c.N {
+		return nil, fmt.Errorf("harness: bigat beyond the last entry")
+	}
 	if c.Wts != nil && (!(c.Kind == KHTTPScn || c.Kind == KGRPCScn) || len(c.Wts) != c.N) {
 		return nil, fmt.Errorf("harness: weights need a scenario kind and one weight per scenario")
 	}
@@ -597,6 +624,8 @@ func construct(c Cell, path string, cio *cellIO) (core.Provider, error) {
 			Limit:   uint(c.Limit),
 			Passes:  uint(c.Passes),
 			Preload: c.Preload,
+
+			MaxAmmoSize: c.Mas,
 		}
 		if c.Pick != nil {
 			conf.ChosenCases = c.chosenTags()
@@ -625,7 +654,7 @@ func construct(c Cell, path string, cio *cellIO) (core.Provider, error) {
 		if err != nil {
 			return nil, err
 		}
-		gc := grpcjson.Config{File: path, Limit: l, Passes: ps}
+		gc := grpcjson.Config{File: path, Limit: l, Passes: ps, MaxAmmoSize: c.Mas}
 		if c.Pick != nil {
 			gc.ChosenCases = c.chosenTags()
 		}
